@@ -176,6 +176,21 @@ def rule_explicit_class_wins(ctx, rid="R20.3", only=None):
                 else:
                     r.fail("%s|guard" % f.qual, site(f), sem["validate"])
                 continue
+        if f.qual == "cli.run":
+            if "_clisem" not in ctx.extra:
+                from .clisem import cli_eval
+                try:
+                    ctx.extra["_clisem"] = cli_eval(prog)
+                except RecursionError:
+                    ctx.extra["_clisem"] = None
+            csem = ctx.extra["_clisem"]
+            if csem is not None and "raises" not in csem:
+                if csem["class"] is None:
+                    r.ok(site(f), "[semantic] --validator's class is used for check_schema and construction; without it the class the schema's $schema "
+                                  "selects, else the default (%d command lines evaluated)" % csem.get("_scenarios", 0))
+                else:
+                    r.fail("%s|guard" % f.qual, site(f), csem["class"])
+                continue
         cfg = cfg_of(f)
         vcalls = [(n, c) for n in cfg.live for (c, tg) in calls_at(calls, f, n) if any(t.kind == "func" and t.func is vf for t in tg)]
         if len(vcalls) != 1:
@@ -225,7 +240,7 @@ def rule_registration(ctx, rid="R20.4"):
             if isinstance(n, ast.Global) and regs & set(n.names):
                 r.fail("%s|global-rebind" % f.qual, site(f, n), "registry rebound via `global`")
     for f, w, t in writers:
-        if f.qual == "validators.validates._validates" and w.how == "store-subscript":
+        if f in calls.registration_writers("validators") and w.how == "store-subscript":
             r.ok(site(f, w.node), "%s (adds an entry)" % w.text)
         else:
             r.fail("%s|registry-write|%s" % (f.qual, w.text), site(f, w.node),
